@@ -91,6 +91,23 @@ Theorem C02_SE23_taylor_bound eps a b c x y z d e f i : 0 < eps -> 0 < x * x + y
 Proof. intros _. exact (se23_taylor_bound eps a b c x y z d e f i). Qed.
 Print Assumptions C02_SE3_taylor_bound.
 
+(* SGal(3) below the switch-over (|theta|^2 < eps <= 1): position (I + W/2) rho + (1/2 I + Scalar(1./6.) W)(tau nu), velocity
+   (I + W/2) nu; the closed forms vrho + eex, vrho are the coefficients of the SAME function on its generic branch
+   (C02_SGal3_generic_coefficients), which C02_exp_SGal3_generic proves to be the matrix exponential of hat. *)
+From Manif Require Import SGal3 Taylor_SGal3.
+Theorem C02_SGal3_generic_coefficients eps a b c d e f x y z tau : 0 < eps -> eps < x * x + y * y + z * z ->
+  exists q0 q1 q2 q3, sg_exp RS eps [a; b; c; d; e; f; x; y; z; tau] =
+    [vrho 0 a b c x y z + eex 0 (tau * d) (tau * e) (tau * f) x y z; vrho 1 a b c x y z + eex 1 (tau * d) (tau * e) (tau * f) x y z;
+     vrho 2 a b c x y z + eex 2 (tau * d) (tau * e) (tau * f) x y z; q0; q1; q2; q3;
+     vrho 0 d e f x y z; vrho 1 d e f x y z; vrho 2 d e f x y z; tau].
+Proof. intros H. exact (sg_exp_generic eps H a b c d e f x y z tau). Qed.
+Theorem C02_SGal3_taylor_bound eps a b c d e f x y z tau i : 0 < x * x + y * y + z * z -> x * x + y * y + z * z < eps -> eps <= 1 -> (i < 3)%nat ->
+  Rabs (nth i (sg_exp RS eps [a; b; c; d; e; f; x; y; z; tau]) 0 - (vrho i a b c x y z + eex i (tau * d) (tau * e) (tau * f) x y z))
+    <= (x * x + y * y + z * z) * (Rabs a + Rabs b + Rabs c) + (x * x + y * y + z * z + 1 / 10 ^ 17) * (Rabs (tau * d) + Rabs (tau * e) + Rabs (tau * f)) /\
+  Rabs (nth (7 + i) (sg_exp RS eps [a; b; c; d; e; f; x; y; z; tau]) 0 - vrho i d e f x y z) <= (x * x + y * y + z * z) * (Rabs d + Rabs e + Rabs f).
+Proof. exact (sg_taylor_bound eps a b c d e f x y z tau i). Qed.
+Print Assumptions C02_SGal3_taylor_bound.
+
 (* non-vacuity: the hypotheses are met far from the small-angle region, beyond pi and for large translations *)
 Example C02_nonvacuous : (25 / 1125899906842624 <= 7 * 7) /\ (25 / 1125899906842624 < 3 * 3 + 4 * 4 + 12 * 12).
 Proof. split; lra. Qed.
